@@ -69,3 +69,14 @@ Proof.
     change (3 - 3) with 0. change (256 ^ 0) with 1. rewrite Z.div_1_r, Z.mul_1_r. reflexivity.
   - reflexivity.
 Qed.
+
+(* inside the domain the encoded number is not negative: the signed reading is the magnitude *)
+Theorem target_signed_exact_proof bits :
+  0 <= bits < 2 ^ 32 -> 3 <= bits / 2 ^ 24 -> bits mod 2 ^ 24 < 2 ^ 23 ->
+  lib_target (be_bytes 4 bits) = Some (spec_target_signed bits).
+Proof.
+  intros Hb He Hs. rewrite (target_exact_proof bits Hb He Hs). unfold spec_target_signed, spec_target_negative.
+  change (2 ^ 24) with 16777216 in *. change (2 ^ 23) with 8388608 in *.
+  destruct (8388608 <=? bits mod 16777216) eqn:E; [apply Z.leb_le in E; lia|].
+  rewrite andb_false_r. reflexivity.
+Qed.
